@@ -37,6 +37,21 @@ func c11CheckTail(s *hlSim, committed []c11Committed, after string) {
 		if tx.LastValid < next {
 			continue
 		}
+		// lease probe: a DIFFERENT transaction of the same sender with the same lease must be refused while
+		// the committed holder of the lease is still active (round <= its LastValid)
+		if tx.Lease != [32]byte{} && s.m.proto(s.l.Latest()).SupportTransactionLeases {
+			var other transactions.Txid
+			other[0] = 0xfe
+			copy(other[1:], tx.Lease[:8])
+			lerr := s.l.CheckDup(proto, next, next, next+1, other, ledgercore.Txlease{Sender: tx.Sender, Lease: tx.Lease})
+			var lil2 *ledgercore.LeaseInLedgerError
+			c.Eval(1)
+			c.Count("c11.leasecheck", 1)
+			c.Distinct(fmt.Sprintf("lease|age%d|%s", min(int(next-ct.round), 16), after))
+			if !errors.As(lerr, &lil2) {
+				c.Violation("active-lease-not-detected", map[string]any{"sender": tx.Sender.String(), "lease": fmt.Sprintf("%x", tx.Lease[:4]), "holder_txid": ct.stxn.ID().String(), "committed_round": ct.round, "lease_active_until": tx.LastValid, "next_round": next, "after_action": after, "checkdup_error": fmt.Sprint(lerr), "dbRound": s.l.LatestTrackerCommitted(), "config": s.cfg.String(), "trace": s.traceTail(25)})
+			}
+		}
 		c.Eval(1)
 		c.Count("c11.dupcheck", 1)
 		err := s.l.CheckDup(proto, next, tx.FirstValid, tx.LastValid, ct.stxn.ID(), ledgercore.Txlease{Sender: tx.Sender, Lease: tx.Lease})
@@ -193,6 +208,7 @@ func TestVerifC11(t *testing.T) {
 	c.Require("c11.dupcheck", 500)
 	c.Require("c11.reoffered", 50)
 	c.Require("c11.leases", 5)
+	c.Require("c11.leasecheck", 50)
 	c.Require("schedule.reload", 2)
 	c.Require("schedule.reopen", 2)
 }
